@@ -1,6 +1,8 @@
 import NemoVerif.Drive.Common
 import NemoVerif.Models.Dnf
 import NemoVerif.Models.GroupExpand
+import NemoVerif.Models.GroupVM
+import NemoVerif.Models.GroupExpandAwait
 
 namespace NemoVerif.Drive.C07
 open Lean NemoVerif NemoVerif.Drive NemoVerif.Dnf NemoVerif.GroupExpand
@@ -43,6 +45,13 @@ def primToJson : Prim → Json
   | .catchPF (some l) => Json.arr #[.str "catch", nat l]
   | .abort => Json.arr #[.str "abort"]
   | .other => Json.arr #[.str "other"]
+  | .assignUid v a => Json.arr #[.str "assignUid", nat v, nat a]
+  | .sendStart a v => Json.arr #[.str "sendStart", nat a, nat v]
+  | .matchStarted a v x => Json.arr #[.str "matchStarted", nat a, nat v, nat x]
+  | .assignRef r x => Json.arr #[.str "assignRef", nat r, nat x]
+  | .matchFin r => Json.arr #[.str "matchFin", nat r]
+  | .beginScope sc => Json.arr #[.str "beginScope", nat sc]
+  | .endScope sc => Json.arr #[.str "endScope", nat sc]
 
 def primOfJson (j : Json) : Except String Prim := do
   let a ← j.getArr?
@@ -59,6 +68,13 @@ def primOfJson (j : Json) : Except String Prim := do
     | .null => pure (.catchPF none)
     | _ => pure (.catchPF (some (← arg.getNat?)))
   | "abort" => pure .abort
+  | "assignUid" => pure (.assignUid (← arg.getNat?) (← (a.getD 2 .null).getNat?))
+  | "sendStart" => pure (.sendStart (← arg.getNat?) (← (a.getD 2 .null).getNat?))
+  | "matchStarted" => pure (.matchStarted (← arg.getNat?) (← (a.getD 2 .null).getNat?) (← (a.getD 3 .null).getNat?))
+  | "assignRef" => pure (.assignRef (← arg.getNat?) (← (a.getD 2 .null).getNat?))
+  | "matchFin" => pure (.matchFin (← arg.getNat?))
+  | "beginScope" => pure (.beginScope (← arg.getNat?))
+  | "endScope" => pure (.endScope (← arg.getNat?))
   | _ => pure .other
 
 def optClausesToJson : Option Clauses → Json
@@ -88,6 +104,29 @@ def handle (op : String) (j : Json) : Except String Json := do
       ("readback", optClausesToJson (readBack real)),
       ("readback_model", optClausesToJson (readBack mine)),
       ("distinct", .bool (labelsDistinct real))])
+  | "expandAwait" =>
+    let g ← gOfJson (← j.getObjVal? "g")
+    let real ← (← (← j.getObjVal? "prims").getArr?).toList.mapM primOfJson
+    let mine := expandAwait g
+    pure (Json.mkObj [("prims", Json.arr (mine.map primToJson).toArray),
+      ("dnf", clausesToJson (toDnf (normalize g))),
+      ("readback", optClausesToJson (readBackAwait real)),
+      ("distinct", .bool (labelsDistinct real))])
+  | "vm" =>
+    -- head-level machine on the clauses of `normalize g`: per sequence (with its recorded tie-breaks) the marker flags
+    -- and the heads (position, status) after every event
+    let g ← gOfJson (← j.getObjVal? "g")
+    let d := toDnf (normalize g)
+    let seqs ← (← j.getObjVal? "seqs").getArr?
+    let chs ← (← j.getObjVal? "choices").getArr?
+    let outs ← (seqs.toList.zip chs.toList).mapM fun (s, c) => do
+      let es ← natsOfJson s
+      let ch ← natsOfJson c
+      let tr := GroupVM.traceVM d (GroupVM.init d) es ch
+      pure (Json.arr (tr.map fun (m, hs) => Json.mkObj [("m", Json.bool m),
+        ("heads", Json.arr (hs.map fun (p, st) => Json.arr #[nat p, nat st]).toArray)]).toArray)
+    pure (Json.mkObj [("runs", Json.arr outs.toArray), ("init", Json.arr ((GroupVM.renderHeads d (GroupVM.init d)).map fun (p, st) => Json.arr #[nat p, nat st]).toArray),
+      ("nonempty", Json.bool (d.all fun c => !c.isEmpty))])
   | _ => throw s!"unknown op C07.{op}"
 
 end NemoVerif.Drive.C07
